@@ -443,6 +443,19 @@ fn resize_stream<F: Read + Write + Seek>(
         debug_assert_eq!(dir_entry.obj_type, ObjType::Stream);
         (dir_entry.start_sector, dir_entry.stream_len)
     };
+    // A stream can't have more sectors than there are sector IDs, nor a
+    // length that doesn't fit into the directory entry's length field.
+    let version = minialloc.version();
+    let max_stream_len = version.stream_len_mask().min(
+        (consts::MAX_REGULAR_SECTOR as u64 + 1) * version.sector_len() as u64,
+    );
+    if new_stream_len > max_stream_len {
+        invalid_input!(
+            "Cannot resize stream to {} bytes (the maximum is {} bytes)",
+            new_stream_len,
+            max_stream_len
+        );
+    }
     let new_start_sector = if old_start_sector == consts::END_OF_CHAIN {
         // Case 1: The stream has no existing chain.  We will allocate a new
         // chain that is all zeroes.
